@@ -42,6 +42,25 @@ func c1(pay, ws, we, rn uint64) map[string]any {
 		"ws": ws, "we": we, "rn": rn, "size": 200, "owner": "A"}
 }
 
+func c1s(pay, ws, we, rn, size uint64) map[string]any {
+	m := c1(pay, ws, we, rn)
+	m["size"] = size
+	return m
+}
+
+// inBlockPre is the transaction that stands before the transaction under test in the child block (rules "...-inblock").
+func inBlockPre(rule string, B uint64) *chain.AbsTx {
+	size := uint64(200)
+	switch rule {
+	case "prove1-windowstart-empty-inblock":
+		size = 0
+	case "prove1-windowstart-inblock":
+	default:
+		return nil
+	}
+	return &chain.AbsTx{Ver: 1, Sci: []chain.AbsIn{in(gid(gBig))}, Sco: []chain.AbsOut{{600000 - 256411, "A"}}, Fc: []json.RawMessage{raw(c1s(256411, B, B+4, 0, size))}, Tag: "pre-in-block"}
+}
+
 func c2(r, h, ph, eh, rn uint64) map[string]any {
 	return map[string]any{"r": r, "h": h, "ra": "A", "ha": "B", "mh": h - h/4, "coll": h / 2, "ph": ph, "eh": eh, "rn": rn,
 		"cap": 256, "size": 200, "rk": "R", "hk": "H", "auth": "ok"}
@@ -101,6 +120,11 @@ func scenario(rule string, B, child, first uint64) (lockAddr string, pre *chain.
 		return "B", fund1(c1(256411, B+6, B+8, 0)), chain.AbsTx{Ver: 1, Rev: []chain.AbsRev{{Cid: fc1, C: raw(c1(256411, B, B+2, 1)), Auth: "ok"}}, Tag: rule}, true
 	case "prove1-windowstart":
 		return "B", fund1(c1(256411, B, B+4, 0)), chain.AbsTx{Ver: 1, Res: []chain.AbsRes{{Cid: fc1, Kind: "proof", Pf: "ok"}}, Tag: rule}, true
+	case "prove1-windowstart-empty":
+		return "B", fund1(c1s(256411, B, B+4, 0, 0)), chain.AbsTx{Ver: 1, Res: []chain.AbsRes{{Cid: fc1, Kind: "proof", Pf: "ok"}}, Tag: rule}, true
+	case "prove1-windowstart-inblock", "prove1-windowstart-empty-inblock":
+		// the contract is formed by the transaction before this one in the child block (inBlockPre)
+		return "B", nil, chain.AbsTx{Ver: 1, Res: []chain.AbsRes{{Cid: chain.SID{chain.FC1, int(child), 0, 1, 0}, Kind: "proof", Pf: "ok"}}, Tag: rule}, true
 	case "form2-proofheight":
 		t := *fund2(c2(250024, 25, B, B+2, 0))
 		t.Tag = rule
@@ -208,7 +232,11 @@ func boundaryRun(c *vlib.Ctx) {
 			if want {
 				verdict = "accept"
 			}
-			r, infra := sim.RunStep(int(child), chain.Step{Op: "block", Verdict: verdict, Txs: []chain.AbsTx{test}})
+			txs := []chain.AbsTx{test}
+			if ib := inBlockPre(test.Tag, boundOf(payload)); ib != nil {
+				txs = []chain.AbsTx{*ib, test}
+			}
+			r, infra := sim.RunStep(int(child), chain.Step{Op: "block", Verdict: verdict, Txs: txs})
 			if infra != nil {
 				c.Infra("boundary %s: %v", name, infra)
 				return
@@ -318,6 +346,7 @@ func boundaryRun(c *vlib.Ctx) {
 	c.Count(nCases+nTime, nCases+nTime)
 	for _, r := range []string{"mat-v1", "mat-v2", "uclock-v1-sc", "uclock-v1-sf", "siglock-v1", "uclock-v2", "above-v2", "after-v2",
 		"form1-windowstart", "rev1-parent-windowstart", "rev1-new-windowstart", "prove1-windowstart", "form2-proofheight",
+		"prove1-windowstart-empty", "prove1-windowstart-inblock", "prove1-windowstart-empty-inblock",
 		"rev2-parent-proofheight", "rev2-new-proofheight", "prove2-proofheight", "expire2-expiration", "era-v1", "era-v2"} {
 		if cells[r+":accept"] == 0 || cells[r+":reject"] == 0 {
 			c.Infra("vacuity: boundary rule %s: %d accepted, %d rejected cases", r, cells[r+":accept"], cells[r+":reject"])
@@ -327,6 +356,16 @@ func boundaryRun(c *vlib.Ctx) {
 
 
 
+
+// boundOf extracts the bound B of a height case from its payload.
+func boundOf(payload any) uint64 {
+	if m, ok := payload.(map[string]any); ok {
+		if hc, ok := m["case"].(hcase); ok {
+			return hc.B
+		}
+	}
+	return 0
+}
 
 func sameJSON(a, b []byte) bool {
 	var x, y any
